@@ -732,7 +732,10 @@ def k34_paths(ctx, facts, disp, roles, cfg):
         for key, val0 in p.order:
             rw = w.raw.get((key, p.atoms.get(key, val0))) or w.raw.get((key, val0))
             if rw and rw[0][0] == "call" and rw[0][1] and rw[0][1].get("key") == vkey and isinstance(rw[1], bool):
-                out.append((rw[1], list(rw[0][2])))
+                # the arguments as they are on *this* path (the atom's recorded question is shared by all paths
+                # through the call site): from the path's own call event at that site
+                evs = [ev for ev in p.events if ev[0] == "call" and ev[1] and ev[1].get("key") == vkey and len(rw[0]) > 3 and ev[3] == rw[0][3]]
+                out.append((rw[1], list(evs[-1][2]) if evs else list(rw[0][2])))
         return out
 
     def unary_on(p):
